@@ -22,7 +22,7 @@
    not collected, handles survive removal, recreated children start from zero, sequential histories. *)
 Require Import PV.Base.Prelude PV.Model.Conc PV.Model.VecConc.
 Require Import PV.Proofs.VecConcBase PV.Proofs.VecConcLin PV.Proofs.VecConcFacts PV.Proofs.VecConcRT.
-Require Import PV.Spec.SpecC10 PV.Proofs.VecConcStrict PV.Proofs.VecConcSpec PV.Proofs.VecConcSpec2 PV.Proofs.VecConcSpec3.
+Require Import PV.Spec.SpecC10 PV.Proofs.VecConcStrict PV.Proofs.VecConcSpec PV.Proofs.VecConcSpec2 PV.Proofs.VecConcSpec3 PV.Proofs.VecConcSpec4.
 From Coq Require Import Sorted Permutation.
 Open Scope N_scope.
 
@@ -197,6 +197,9 @@ Proof. exact (conj (classify_strict nl es) (conj (classify_known nl es) (classif
      (b) "lin_search false does not answer NotFound": needs lin_exists for the relaxed action system from the ghost log (a simulation
          of the spec's sequential map, thread-local handle / snapshot, and the placement of the end-of-reads action); the exactness of
          NotFound is proved (c10_strict_search_exact / dfs_notfound_exact), so no budget clause would be needed.
+         PROVED for scenarios without collect calls ([c10_relaxed_spec_of_validated_nocollect], Proofs/VecConcSpec4.v: the ghost log in
+         time order IS a linearisation - rows_equal, lacts_rt, replay_from); with collects the entry->action map (ACollect -> KSnap, KEnd
+         after the last ARead) and the value / handle / snapshot part of the simulation remain.
    [c10_strict_failure_is_known_class] is not attempted: it needs (b) and its converse. *)
 Theorem c10_relaxed_spec_of_validated_partial nl nth es :
   vcheck nl nth es = true -> in_domain nth es = true -> proved_clauses2 nl es = true.
@@ -232,6 +235,26 @@ Proof. exact (relaxed_spec_of_validated_is_search nl nth es). Qed.
 Theorem c10_relaxed_spec_of_validated_if_not_refuted nl nth es :
   vcheck nl nth es = true -> in_domain nth es = true -> lin_search false nl (fst (extract es)) <> NotFound -> spec_c10_relaxed nl es = true.
 Proof. exact (relaxed_spec_of_validated_if_not_refuted nl nth es). Qed.
+
+(* (b) on the sub-domain of scenarios without collect calls: the ghost log yields a linearisation of the relaxed action system, so the
+   search cannot answer NotFound and the FULL relaxed spec holds on validated traces *)
+Theorem c10_search_not_refuted_nocollect nl nth es :
+  vcheck nl nth es = true -> in_domain nth es = true -> no_collect es = true ->
+  lin_exists sst0 (all_acts false nl (fst (extract es))) /\ lin_search false nl (fst (extract es)) <> NotFound.
+Proof. exact (search_not_refuted_nocollect nl nth es). Qed.
+Theorem c10_relaxed_spec_of_validated_nocollect nl nth es :
+  vcheck nl nth es = true -> in_domain nth es = true -> no_collect es = true -> spec_c10_relaxed nl es = true.
+Proof. exact (relaxed_spec_of_validated_nocollect nl nth es). Qed.
+(* non-vacuity: a real racing trace without collect calls is in the sub-domain *)
+Example c10_nocollect_in_domain :
+  vcheck 1 2 nocollect_trace = true /\ in_domain 2 nocollect_trace = true /\ no_collect nocollect_trace = true
+  /\ spec_c10_relaxed 1 nocollect_trace = true.
+Proof.
+  assert (Hv : vcheck 1 2 nocollect_trace = true) by (vm_compute; reflexivity).
+  assert (Hd : in_domain 2 nocollect_trace = true) by (vm_compute; reflexivity).
+  assert (Hn : no_collect nocollect_trace = true) by (vm_compute; reflexivity).
+  split; [exact Hv|]. split; [exact Hd|]. split; [exact Hn|]. exact (relaxed_spec_of_validated_nocollect 1 2 nocollect_trace Hv Hd Hn).
+Qed.
 
 (* a generated (real) trace is in the domain; on it the whole relaxed spec also evaluates to true *)
 Example c10_race_in_domain :
@@ -348,3 +371,6 @@ Print Assumptions c10_relaxed_spec_of_validated_partial3.
 Print Assumptions c10_proved_clauses3_are_spec_conjuncts.
 Print Assumptions c10_relaxed_spec_of_validated_is_search.
 Print Assumptions c10_relaxed_spec_of_validated_if_not_refuted.
+Print Assumptions c10_search_not_refuted_nocollect.
+Print Assumptions c10_relaxed_spec_of_validated_nocollect.
+Print Assumptions c10_nocollect_in_domain.
